@@ -73,14 +73,17 @@ class TokenizerContext:
                 self.candidateBuffer = bytesFromUint(self._tokens[self.sourceSequence])
             self.bucket = ""
         elif self.bucket in self._tokens:
-            # found an early tokenizable sequence
-            if self.sourceSequence in self._requireColonIfNotBlank:
-                self.candidateBuffer = toUint8(0x3A) + bytesFromUint(
+            # found an early tokenizable sequence : keep what is pending, then
+            # process the input from a clean state
+            if self.bucket in self._requireColonIfNotBlank:
+                self.candidateBuffer += toUint8(0x3A) + bytesFromUint(
                     self._tokens[self.bucket]
                 )
             else:
-                self.candidateBuffer = bytesFromUint(self._tokens[self.bucket])
+                self.candidateBuffer += bytesFromUint(self._tokens[self.bucket])
             self.bucket = ""
+            self.commit()
+            self.appendAsToken(inputSeq)
         elif inputSeq in self._tokens:
             # found a token on the spot
             self.commit()
